@@ -286,6 +286,12 @@ class GetStatusC04:
                                   " len(bucket(self, component_ids)), k, priority)"
                                   " and result._inclusion_bounds.lower == G(k)[0]"
                                   " and result._inclusion_bounds.upper == G(k)[1])",
+        # the "hence" clause of C04: an actor of this priority that has a live proposal is clamped by the sweep in
+        # exactly the range it is told (the sweep clamps the proposal at sorted position j into G(j))
+        reported_range_is_own_clamp_range="forall(0, len(bucket(self, component_ids)), lambda j: implies("
+                                          "sorted(bucket(self, component_ids), reverse=True)[j].priority == priority,"
+                                          " result._inclusion_bounds.lower == G(j)[0]"
+                                          " and result._inclusion_bounds.upper == G(j)[1]))",
     )
 
 
